@@ -12,10 +12,11 @@ cleanup() { git -C /repo worktree remove --force $WT >/dev/null 2>&1; rm -rf $TM
 trap cleanup EXIT
 demo_name=$(grep -ho 'func Test[A-Za-z0-9_]*' $D/demo_test.go | head -1 | sed 's/func //')
 cp $D/demo_test.go $WT/tests/zz_seed_demo_test.go
-demo_without=$(cd $WT/tests && go test -vet=off -count=1 -run "^${demo_name}\$" . >/tmp/seed_log_$$ 2>&1 && echo pass || echo fail)
+RACE=""; [ "$P" = "C07" ] && RACE="-race"
+demo_without=$(cd $WT/tests && go test $RACE -vet=off -count=1 -run "^${demo_name}\$" . >/tmp/seed_log_$$ 2>&1 && echo pass || echo fail)
 applies=yes; (cd $WT && git apply $D/patch.diff) || applies=no
 builds=$(cd $WT && go build ./... >/dev/null 2>&1 && echo yes || echo no)
-demo_with=$(cd $WT/tests && go test -vet=off -count=1 -run "^${demo_name}\$" . >>/tmp/seed_log_$$ 2>&1 && echo pass || echo fail)
+demo_with=$(cd $WT/tests && go test $RACE -vet=off -count=1 -run "^${demo_name}\$" . >>/tmp/seed_log_$$ 2>&1 && echo pass || echo fail)
 rm -f $WT/tests/zz_seed_demo_test.go
 suite_root=$(cd $WT && go test -vet=off -count=1 ./... >/dev/null 2>&1 && echo pass || echo fail)
 suite_tests=$(cd $WT/tests && go test -vet=off -count=1 ./... >/dev/null 2>&1 && echo pass || echo fail)
